@@ -11,7 +11,7 @@ From WebP Require Import Lib.Res Lib.Arr Model.AlphaBlend Model.Anim Spec.Anim
   Proofs.Anim_play Proofs.Anim_history Properties.C06.
 From WebP Require Spec.Container Spec.Anim Model.AlphaBlend Model.Anim Model.ReadImage Model.ReadImageOps Model.Vp8Decode
   Proofs.Container_bytes Proofs.Anim_play Proofs.Anim_history Proofs.ReadImage_anim Proofs.ReadImage_ops
-  Proofs.VP8_decode_readimage Proofs.ReadImage_ops_closed Proofs.Container_fits.
+  Proofs.VP8_decode_readimage Proofs.ReadImage_ops_closed Proofs.Container_fits Proofs.Anim_history_safe.
 Import ListNotations.
 Open Scope Z_scope.
 
@@ -54,6 +54,13 @@ Theorem exhausted_no_more_frames : forall f ops buf i, valid_file f -> Z.of_nat 
   nth_error (run_ops f ops fresh_state buf) i =
     Some (RFrame (Err ENoMoreFrames), buffer_before (run_ops f ops fresh_state buf) i buf).
 Proof. exact exhausted_lemma. Qed.
+
+(* no call of any call sequence on a valid animation panics, exhausts fuel, or fails with anything but NoMoreFrames: a call's outcome class
+   does not depend on the calls made before it (the C03 face of this property; call_clean accepts exactly RFrame (Ok _),
+   RFrame (Err ENoMoreFrames), RImage (Ok _), RReset and RFill) *)
+Theorem calls_never_fail : forall f ops buf, valid_file f -> Z.of_nat (length buf) = output_buffer_size f ->
+  Forall (fun rb => Anim_history_safe.call_clean (fst rb)) (run_ops f ops fresh_state buf).
+Proof. exact Anim_history_safe.ops_clean_lemma. Qed.
 
 (* non-vacuity on the 3-frame animation of C06 (first frame does not cover the canvas, frames leave pixels behind):
    F I F F <caller fills the buffer with 238> F R F -- read_image shows frame 1 without moving on, the fourth read_frame
